@@ -26,10 +26,34 @@ def cases_for(tier):
         cs = C07.thin(cs)
     return cs
 
+# word-level predicates that are NOT in the C05 catalogue but have per-word-size code (Miller-Rabin base sets of priIsPrimeW):
+# complete windows, compared as digests across configurations
+PRI_WINDOWS = [(0, 1 << 16)] + [(c - (1 << 13), 1 << 14) for c in (1373653, 25326001, 3215031751, 1 << 31, (1 << 32) - (1 << 13))]
+def pri_digest(cfg):
+    """sha256 over the priIsPrimeW bitmaps of the windows (values < 2^32, so both word sizes see the same integers) and the
+    priNextPrimeW answers from every start in [0, 2^12) and 2^13 starts below each window centre"""
+    import ctypes, hashlib
+    L = common.lib(cfg)
+    h = hashlib.sha256()
+    with vf.Arena(L) as A:
+        st = A.buf(max(L.sz('priIsPrimeW_deep'), L.sz('priNextPrimeW_deep'), 64))
+        for start, count in PRI_WINDOWS:
+            bits = A.buf((count + 7) // 8, 0)
+            L.call('vh_c12_isprimew', start, count, bits, st)
+            h.update(bits.get())
+        for start, count in [(0, 1 << 12)] + [(c, 1 << 13) for c, _ in PRI_WINDOWS[1:]]:
+            out = A.buf(8 * count, 0)
+            L.call('vh_c12_nextprimew', start, count, out, st)
+            h.update(out.get())
+    return h.hexdigest()
+
 WORD_CFGS = {'quick': ['fast', 'w32fast', 'dbgp', 'rel3', 'clang'], 'thorough': ['fast', 'w32fast', 'dbgp', 'dbg32', 'rel3', 'O1', 'clang']}
 
 def sub(tier, cfg, out):
     global _cfg
+    if cfg.startswith('pri:'):
+        json.dump({'digest': pri_digest(cfg[4:])}, open(out, 'w'))
+        return 0
     if cfg.startswith('word:'):
         # word-level layer: the C05 catalogue (exact integer / GF(2)[x] formulas, which the primary configuration satisfies)
         # executed by the other configurations: the SAFE_FAST-only, assertion-only and per-compiler code of the arithmetic layer
@@ -98,6 +122,18 @@ def run(tier):
             chk.cap('word level [%s]: %s' % (cfg, c))
         chk.part('word_' + cfg, states=w['cells'], transitions=w['calls'], traces_validated_against_impl=w['calls'], evaluations=w['calls'], functions=w['functions'])
         chk.outcome('word:' + cfg)
+    # prime predicates with per-word-size code paths: digest differential over complete windows
+    base_pri, err = run_cfg(tier, 'pri:' + PRIMARY)
+    npri = sum(c for _, c in PRI_WINDOWS)
+    for cfg in ['w32', 'dbg32', 'w32fast', 'fast', 'rel3', 'clang', 'dbgp']:
+        d, err = run_cfg(tier, 'pri:' + cfg)
+        if d is None or base_pri is None:
+            chk.violation('harness:pri:' + cfg, {'cfg': cfg, 'kind': 'none'}, 'prime sweep in %s failed to run: %s' % (cfg, err)); continue
+        if d['digest'] != base_pri['digest']:
+            chk.violation('%s:pri-sweep' % cfg, {'cfg': cfg, 'kind': 'pri'},
+                          'priIsPrimeW / priNextPrimeW over the windows %s: configuration %s answers differently from %s (C12 decides which integers)' % (
+                              [(a, a + c) for a, c in PRI_WINDOWS], cfg, PRIMARY))
+        chk.part('pri_' + cfg, states=len(PRI_WINDOWS), transitions=2 * npri, traces_validated_against_impl=2 * npri, evaluations=2 * npri)
     chk.sample({'word_level': 'C05 catalogue (ww/zz/pp, both editions, lengths 0..6 quick / 0..20 thorough) in configurations %s against exact formulas' % WORD_CFGS[tier]})
     chk.sample({'configurations': [PRIMARY] + done, 'cases': len(cs)})
     chk.sample({'fn': cs[0][0], 'case': cat.short(cs[0][1]), 'digest_primary': base[0]})
@@ -111,6 +147,9 @@ def replay(rec):
     global _cfg
     if rec.get('kind') == 'call':
         return C07.replay(rec)
+    if rec.get('kind') == 'pri':
+        a = vf.pmap(pri_digest, [PRIMARY, rec['cfg']], nproc=1)
+        return None if a[0] == a[1] else 'prime sweep digests of %s and %s differ' % (PRIMARY, rec['cfg'])
     if rec.get('kind') != 'diff':
         return None
     case = cat.dec_case(rec['case'])
